@@ -409,7 +409,7 @@ func (m *mapOrder) consumedByKeyedRemoval(fd *ast.FuncDecl, info *types.Info, ob
 	if rem == nil {
 		return false
 	}
-	ok, removed := true, false
+	ok, removed, returned := true, false, false
 	ast.Inspect(fd.Body, func(n ast.Node) bool {
 		if rs, isR := n.(*ast.RangeStmt); isR && rs.Pos() > after && info.Uses[identOf(rs.X)] == obj {
 			var el types.Object
@@ -432,12 +432,67 @@ func (m *mapOrder) consumedByKeyedRemoval(fd *ast.FuncDecl, info *types.Info, ob
 			})
 			return false // uses inside this loop are the consumption itself
 		}
+		if ret, isRet := n.(*ast.ReturnStmt); isRet && ret.Pos() > after && len(ret.Results) == 1 && info.Uses[identOf(ret.Results[0])] == obj {
+			returned = true
+			return false
+		}
 		if id, isId := n.(*ast.Ident); isId && id.Pos() > after && info.Uses[id] == obj {
-			ok = false // any other use (return, call argument, index) is not covered by the argument
+			ok = false // any other use (call argument, index) is not covered by the argument
 		}
 		return true
 	})
-	return ok && removed
+	if ok && returned && !removed {
+		// the list of keys is handed back: every caller ranges over the call and removes element by element
+		// (`for _, path := range w.unreachableIndexedLocked(reachable) { w.forgetFileLocked(path) }`)
+		fo := info.Defs[fd.Name]
+		sites, good := 0, 0
+		for _, od := range m.p.AllFuncDecls() {
+			if m.p.pkgOf[od] != m.p.pkgOf[fd] || od.Body == nil {
+				continue
+			}
+			oinfo := m.p.InfoFor(od)
+			ast.Inspect(od.Body, func(n ast.Node) bool {
+				call, isC := n.(*ast.CallExpr)
+				if !isC || calleeOf(oinfo, call) != fo {
+					return true
+				}
+				sites++
+				return true
+			})
+			ast.Inspect(od.Body, func(n ast.Node) bool {
+				rs, isR := n.(*ast.RangeStmt)
+				if !isR {
+					return true
+				}
+				call, isC := ast.Unparen(rs.X).(*ast.CallExpr)
+				if !isC || calleeOf(oinfo, call) != fo || rs.Value == nil {
+					return true
+				}
+				el := oinfo.Defs[identOf(rs.Value)]
+				rm := false
+				ast.Inspect(rs.Body, func(y ast.Node) bool {
+					if c2, isC2 := y.(*ast.CallExpr); isC2 && el != nil {
+						for _, a := range c2.Args {
+							if oinfo.Uses[identOf(a)] == el {
+								if o, isF := calleeOf(oinfo, c2).(*types.Func); isF {
+									if d := m.p.declOf[o]; d != nil && callsDecl(m.p, d, rem, 0) {
+										rm = true
+									}
+								}
+							}
+						}
+					}
+					return true
+				})
+				if rm {
+					good++
+				}
+				return true
+			})
+		}
+		return sites > 0 && sites == good
+	}
+	return ok && removed && !returned
 }
 
 // declReachable maps "pkg.Recv.Func" onto the SSA naming used by reachableDecls.
